@@ -212,6 +212,105 @@ def has_alias(case):
     return out
 
 
+def parse_fproc(resp):
+    """`fproc struct=… ok=… inits=… ; model=… lowered=… spec=… next=r:S,… agree=… ; …` -> (header, rows)"""
+    if not resp.startswith("fproc "):
+        return None
+    parts = resp.split(" ; ")
+    rows = []
+    for p in parts[1:]:
+        d = common.kv(p)
+        row = {k: [int(x) for x in d[k].split(",")] if d.get(k) else [] for k in ("model", "lowered", "spec")}
+        row["next"] = dict(x.split(":", 1) for x in d.get("next", "").split(",") if x)
+        row["agree"] = d.get("agree") == "1"
+        rows.append(row)
+    return common.kv(parts[0]), rows
+
+
+def judge_fsm(chk, case, resps):
+    """the same steps against the Lean side that knows FSMs: Spec = small-step reading of the program as written (states by
+    name), Model = `_pop_ctrl`'s lowering, compared structurally with the statements amaranth built and by execution"""
+    base = {"sigs": case["sigs"], "fprog": case.get("fprog"), "job_seed": case["seed"]}
+    pc, ps0 = parse_fproc(resps[0]), parse_fproc(resps[1])
+    ps1 = parse_fproc(resps[2]) if len(resps) > 2 else ({}, [])
+    rs = None
+    if ps0 is not None and ps1 is not None:
+        it0, it1 = iter(ps0[1]), iter(ps1[1])
+        try:
+            rs = [next(it1) if r else next(it0) for r in case["rsts"]]
+        except StopIteration:
+            rs = None
+    if pc is None or rs is None:
+        chk.not_shown("driver could not evaluate a program with FSMs", dict(base, responses=[r[:300] for r in resps],
+                                                                             req=case["freq_comb"][:3000]))
+        return False
+    regs = {ri: (name, dec) for name, ri, dec in case["fsm_regs"]}
+    for dom, hdr, req in (("comb", pc[0], "freq_comb"), ("sync", ps0[0], "freq_sync")):
+        if hdr.get("ok") != "1":
+            chk.not_shown("the FSM model says the DSL refuses a program that amaranth accepted (FProg.listOk, incl. the "
+                          "width of the state register)", dict(base, request=case[req]))
+            return False
+        if hdr.get("inits") != "1":
+            chk.not_shown("the initial value of an FSM state register is not the model's code of the initial state",
+                          dict(base, request=case[req]))
+            return False
+        if hdr.get("struct") != "same":
+            chk.not_shown(f"{dom}: the statements amaranth built differ structurally from the model's lowering of the program "
+                          "as written (_pop_ctrl: Switch on the state register, codes in order of first mention, ongoing() "
+                          "drivers at module top level)", dict(base, request=case[req]))
+            return False
+    for env, row in zip(case["envs_c"], pc[1]):
+        chk.count(1)
+        if not row["agree"]:
+            chk.not_shown("fsm.decoding of the real FSM and the model's decode disagree about a register value",
+                          dict(base, env=env, request=case["freq_comb"]))
+            return False
+        for i in case["comb_idx"]:
+            if env[i] != row["spec"][i]:
+                chk.violation(f"comb signal {case['sigs'][i][0]} = {env[i]} but the program as written (FSM states by name, "
+                              f"ongoing() = 1 iff current) gives {row['spec'][i]} in state {env}",
+                              dict(base, kind="fsm-comb", env=env, sig=case["sigs"][i][0], impl=env[i], spec=row["spec"][i],
+                                   request=case["freq_comb"],
+                                   classes=["F9"] if (has_alias(case) and env[i] == row["model"][i]) else []))
+                return False
+            if env[i] != row["lowered"][i] or env[i] != row["model"][i]:
+                chk.not_shown("comb: impl = spec, but the model (real statements / model's FSM lowering, executed) differs",
+                              dict(base, env=env, sig=i, impl=env[i], model=row["model"][i], lowered=row["lowered"][i],
+                                   request=case["freq_comb"]))
+                return False
+    for (env, env2), row, rst in zip(case["steps"], rs, case["rsts"]):
+        chk.count(1)
+        if not row["agree"]:
+            chk.not_shown("fsm.decoding of the real FSM and the model's decode disagree about a register value",
+                          dict(base, env=env, request=case["freq_sync"]))
+            return False
+        for i in case["sync_idx"]:
+            if i in regs:
+                name, dec = regs[i]
+                got, want = dec.get(env2[i], "?"), row["next"].get(str(i), "missing")
+                if got != want:
+                    chk.violation(f"FSM {name} is in state {got} after the edge{' with reset' if rst else ''}, the program as "
+                                  f"written goes from {dec.get(env[i], '?')} to {want} (state {env})",
+                                  dict(base, kind="fsm-next", env=env, after=env2, fsm=name, impl=got, spec=want,
+                                       request=case["freq_sync1" if rst else "freq_sync"], classes=[]))
+                    return False
+            elif env2[i] != row["spec"][i]:
+                chk.violation(f"sync signal {case['sigs'][i][0]} becomes {env2[i]} at the edge but the program as written (FSM "
+                              f"states by name) gives {row['spec'][i]} from state {env}",
+                              dict(base, kind="fsm-sync", env=env, after=env2, sig=case["sigs"][i][0], impl=env2[i],
+                                   spec=row["spec"][i], request=case["freq_sync1" if rst else "freq_sync"],
+                                   classes=["F9"] if (has_alias(case) and env2[i] == row["model"][i]) else []))
+                return False
+            if env2[i] != row["lowered"][i] or env2[i] != row["model"][i]:
+                chk.not_shown("sync: impl = spec, but the model (real statements / model's FSM lowering, executed) differs",
+                              dict(base, env=env, sig=i, impl=env2[i], model=row["model"][i], lowered=row["lowered"][i],
+                                   request=case["freq_sync1" if rst else "freq_sync"]))
+                return False
+    if case["fsm_regs"]:
+        chk.distinct(("fsm", case["fprog"]), any(e[i] != e2[i] for e, e2 in case["steps"] for i in regs))
+    return True
+
+
 def judge(chk, case, resps):
     base = {"sigs": case["sigs"], "prog": case.get("prog"), "job_seed": case["seed"]}
     if "fsm_init" in case:
@@ -285,11 +384,12 @@ def run(chk):
     with ProcessPoolExecutor(max_workers=min(16, os.cpu_count() or 4)) as ex:
         for job in ex.map(prog_job, args, chunksize=2):
             for k, v in job["hist"].items():
-                chk.hist("constructs", k, v)
+                chk.hist("fsm_shapes" if k.startswith("fsm_") else "constructs", k, v)
             reqs = []
             for c in job["cases"]:
                 if "error" not in c:
                     reqs += [c["req_comb"], c["req_sync"]] + ([c["req_sync1"]] if c.get("req_sync1") else [])
+                    reqs += [c["freq_comb"], c["freq_sync"]] + ([c["freq_sync1"]] if c.get("freq_sync1") else [])
             resps = chk.driver.ask(reqs)
             k = 0
             for c in job["cases"]:
@@ -297,7 +397,12 @@ def run(chk):
                     judge(chk, c, None)
                 else:
                     n = 3 if c.get("req_sync1") else 2
+                    seen = lambda: len(chk.violations) + len(chk.unshown) + sum(chk.known_seen.values())
+                    before = seen()
                     judge(chk, c, resps[k:k + n]); k += n
+                    if seen() == before:
+                        judge_fsm(chk, c, resps[k:k + n])
+                    k += n
     chk.cov["rule"] = ("random Module-DSL programs (nesting <= 4: If/Elif/Else chains up to 4 tests incl. multi-bit, signed and constant "
                        "conditions; Switch with int, negative/unrepresentable int, multi-pattern and whitespace string patterns, Default, "
                        "cases after Default; comb and sync assignments mixed in one tree; targets from the C05 target grammar) simulated "
